@@ -137,24 +137,33 @@ def classify(res, blob):
 
 # ------------------------------------------------------------- child-side job (zygote)
 def child_detect_faults(job):
-    from .ops import run_detect_batch
     dbn = job["docs"]
     faults = []
     for fs in job["faults"]:
         faults += expand(fs, dbn)
-    blobs = [apply_fault(f, dbn) for f in faults]
-    if job.get("order") == "reversed":
-        # same blobs, opposite order (and another hash seed): a sniffer whose answer depends on what it was
-        # shown before, or on hash order, gives a different result vector
-        res = run_detect_batch({"blobs": blobs[::-1]})["results"][::-1]
-    else:
-        res = run_detect_batch({"blobs": blobs})["results"]
+    from .ops import detect_one, _classes
+    R, _ = _classes()
+    # Blobs are created just in time and dropped right after being sniffed, the way a long-running service
+    # handles one document after the other (a freed string's address is reused by the next one).
+    # "reversed": same blobs, opposite order (and another hash seed): a sniffer whose answer depends on what it
+    # was shown before, or on hash order, gives a different result vector
+    order = range(len(faults) - 1, -1, -1) if job.get("order") == "reversed" else range(len(faults))
+    res = [None] * len(faults)
+    for i in order:
+        b = apply_fault(faults[i], dbn)
+        res[i] = detect_one(b, R)
+        del b
     anomalies = []
     by_kind = {}
     sig = []
     accepted = 0
     multi = 0
-    for f, b, r in zip(faults, blobs, res):
+    keep_blobs = bool(job.get("want_blobs"))
+    blobs = []
+    for f, r in zip(faults, res):
+        b = apply_fault(f, dbn)
+        if keep_blobs:
+            blobs.append(b)
         by_kind[f[0]] = by_kind.get(f[0], 0) + 1
         n_acc = sum(1 for o in r[1] if o == 1)
         accepted += 1 if n_acc else 0
@@ -163,7 +172,7 @@ def child_detect_faults(job):
         tag = classify(r, b)
         if tag is not None:
             anomalies.append({"fault": f, "blob": b if len(b) <= 4000 else b[:4000], "blob_len": len(b), "tag": tag, "result": r})
-    out = {"n": len(blobs), "by_kind": by_kind, "anomalies": anomalies[:50], "n_anomalies": len(anomalies),
+    out = {"n": len(faults), "by_kind": by_kind, "anomalies": anomalies[:50], "n_anomalies": len(anomalies),
            "digest": canon.digest("\n".join(sig)), "accepted": accepted, "multi_accepted": multi,
            "distinct_outcomes": sorted(set(sig))[:200]}
     if job.get("want_sig"):
